@@ -123,9 +123,15 @@ TArity(tok) == CASE tok[1] \in {"sym", "int", "rat", "cst"} -> 0
                  [] tok[1] = "fn" -> tok[3]
                  [] OTHER -> 1
 
-RECURSIVE SumSeq(_, _, _), ProdSeq(_, _, _)
-SumSeq(p, xs, i)  == IF i > Len(xs) THEN 0 ELSE FAdd(p, xs[i], SumSeq(p, xs, i + 1))
-ProdSeq(p, xs, i) == IF i > Len(xs) THEN 1 ELSE FMul(p, xs[i], ProdSeq(p, xs, i + 1))
+RECURSIVE SumRange(_, _, _, _), ProdRange(_, _, _, _)        \* by halves: logarithmic recursion depth
+SumRange(p, xs, lo, hi)  == IF lo > hi THEN 0 ELSE IF lo = hi THEN xs[lo]
+                            ELSE LET mid == (lo + hi) \div 2
+                                 IN  FAdd(p, SumRange(p, xs, lo, mid), SumRange(p, xs, mid + 1, hi))
+ProdRange(p, xs, lo, hi) == IF lo > hi THEN 1 ELSE IF lo = hi THEN xs[lo]
+                            ELSE LET mid == (lo + hi) \div 2
+                                 IN  FMul(p, ProdRange(p, xs, lo, mid), ProdRange(p, xs, mid + 1, hi))
+SumSeq(p, xs, i)  == SumRange(p, xs, i, Len(xs))
+ProdSeq(p, xs, i) == ProdRange(p, xs, i, Len(xs))
 
 \* value of one node given the values of its operands (args, in order)
 Sem(p, pt, tok, args) ==
@@ -149,9 +155,17 @@ StepTok(p, pt, tok, st) ==
   LET n == TArity(tok) IN
   Append(SubSeq(st, 1, Len(st) - n), Sem(p, pt, tok, SubSeq(st, Len(st) - n + 1, Len(st))))
 
-RECURSIVE RunFrom(_, _, _, _, _)
-RunFrom(p, pt, toks, i, st) == IF i > Len(toks) THEN st
-                               ELSE RunFrom(p, pt, toks, i + 1, StepTok(p, pt, toks[i], st))
+RECURSIVE RunRange(_, _, _, _, _, _)
+\* Programs are run by halves so that TLC's recursion depth is logarithmic in the program length (a linear
+\* recursion overflows the Java stack at ~150 tokens); the test on Len(s1) makes TLC compute the stack after the
+\* first half before it starts the second (otherwise it passes an unevaluated, ever deeper nested argument).
+RunRange(p, pt, toks, lo, hi, st) ==
+  IF lo > hi THEN st
+  ELSE IF lo = hi THEN StepTok(p, pt, toks[lo], st)
+  ELSE LET mid == (lo + hi) \div 2
+           s1  == RunRange(p, pt, toks, lo, mid, st)
+       IN  IF Len(s1) > 0 THEN RunRange(p, pt, toks, mid + 1, hi, s1) ELSE s1
+RunFrom(p, pt, toks, i, st) == RunRange(p, pt, toks, i, Len(toks), st)
 \* the value of a complete program at the point pt
 Value(p, pt, toks) == LET st == RunFrom(p, pt, toks, 1, <<>>) IN st[Len(st)]
 
